@@ -22,7 +22,11 @@ SPEC = {
         "glyph id lists contain no duplicates (documented requirement of subset()); new glyph id = position in the list",
         "new glyph ids are at most 65534 in the format 12 theorem (a font has at most 65535 glyphs); the format 4 and "
         "format 0 theorems need no such bound",
-        "Big5 source sub-tables (encoding_rs data) are not modelled: selection checked, contents not compared",
+        "Big5 source sub-tables (encoding_rs data) are not modelled in Coq: the end-to-end cases judge them at the Font level "
+        "(Font::lookup_glyph_index of the source font vs. of the subset font; the Big5 conversions are allsorts::big5 / encoding_rs, trusted)",
+        "format 2 sources: a two byte code whose first byte is not a lead byte (subHeaderKey 0) and a lead byte used as a one byte "
+        "code are not codes of the table (mappings_fn does not enumerate them, map_glyph answers with the sub-header 0 entry of the "
+        "low byte): they count as unmapped",
         "search_range/entry_selector of Format4Calculator are computed with f64 log2 in the Rust and with Z.log2 in the "
         "model (agreement for 1..8191 segments is covered by the correspondence; the reader ignores both fields)",
         "usize is 64 bits",
@@ -33,12 +37,19 @@ SPEC = {
             "thousands of segments or a 32000 entry glyphIdArray to reach the length limits) through the verif hook to "
             "EncodingRecord::from_mappings + owned::Cmap::write, judged by reading the written table back with the C06 "
             "model: every kept code maps to its glyph and the table enumerates nothing else; K = a synthesised source cmap "
-            "table (formats 0/4/6/12 rendered from a mapping, optional second record, 10% damaged), OS/2, target, glyph id "
+            "table (formats 0/4/6/12 rendered from a mapping, and format 2 - one byte codes in sub-header 0, two byte codes under lead byte "
+            "sub-headers with ranges wider than their codes (holes = glyphIndexArray 0 before/between/after), idDelta 0 / 0xFFFF / random / ON "
+            "PURPOSE the id of a glyph of the font, shared sub-headers - under the Unicode, Symbol, Mac Roman and Big5 (3,4) encodings; Big5 "
+            "code sets (ASCII + clusters under 1..4 lead bytes, only codes that round-trip through allsorts::big5) also as format 4; optional "
+            "second record, 10% damaged), OS/2, target, glyph id "
             "list through MappingsToKeep::new; E = a synthetic TrueType font (n empty glyphs) around such a cmap, "
             "subset::subset or subset::prince::subset(.., MacRoman, ..) with random glyph id lists (sometimes > 256 ids), "
             "the output cmap read back by allsorts' reader and by the C06 model and judged model-independently "
             "(cmap_agrees: every character the source font maps to a retained glyph maps to its new id, everything else, "
-            "every enumerated pair of the output and for a Mac Roman target all 241 Mac Roman characters included, to 0). "
+            "every enumerated pair of the output and for a Mac Roman target all 241 Mac Roman characters included, to 0; the probes "
+            "contain the holes of the source ranges; for Unicode and Big5 sources additionally at the Font level: Font::lookup_glyph_index "
+            "of the source font against that of the subset font for every probe and, Big5, for every character a map_glyph sweep of the "
+            "source (all 16 bit codes) or of the output sub-table finds mapped). "
             "distinct = distinct input lines; histogram keys = kind/plane or target/size class/output format",
     "search_factor": 2,
 }
